@@ -48,7 +48,11 @@ func genCell(t *rapid.T, profile int) string {
 		return rapid.SampledFrom(boolCells).Draw(t, "boolcell")
 	case 3:
 		// long field around the 1 KiB buffer and its doublings, special byte at the edge
-		l := rapid.SampledFrom([]int{1015, 1019, 1020, 1021, 1022, 1023, 1024, 1025, 1026, 1030, 2040, 2046, 2047, 2048, 2049, 2050, 2055, 4090, 4096, 4097, 4098, 4099, 4100, 4105}).Draw(t, "longlen")
+		lens := []int{1015, 1019, 1020, 1021, 1022, 1023, 1024, 1025, 1026, 1030, 2040, 2046, 2047, 2048, 2049, 2050, 2055, 4090, 4096, 4097, 4098, 4099, 4100, 4105}
+		if tier() == "thorough" {
+			lens = append(lens, 8190, 8198, 8199, 8200, 8201, 16395, 16399, 16400, 16401, 32799, 32800, 32801) // further doublings 2n+1 of the buffer
+		}
+		l := rapid.SampledFrom(lens).Draw(t, "longlen")
 		special := rapid.SampledFrom([]string{"\"", "\"\"", ",", "\n", "", "a", "\"\n", "\",\""}).Draw(t, "special")
 		tail := rapid.SampledFrom([]string{"", "z", "zz\"", "tail"}).Draw(t, "tail")
 		return strings.Repeat("p", l) + special + tail
@@ -114,7 +118,7 @@ func genCSVCase(t *rapid.T) csvCase {
 			}
 		}
 	}
-	if hdrKind == "headers-option" {
+	if hdrKind == "headers-option" || ((hdrKind == "dup" || hdrKind == "missing") && rapid.IntRange(0, 2).Draw(t, "viaheaders") == 0) {
 		c.conf.Headers = names
 	} else {
 		d.Header = names
